@@ -339,6 +339,7 @@ SETUID_REASONS = {
     b"Can't drop privilege as nonroot user": 'RNonRoot',
     b'Could not set groups of effective user': 'RSetgroups',
     b'Could not set group id of effective user': 'RSetgid',
+    b'Could not set user id of effective user': 'RSetuid',
 }
 
 
